@@ -31,6 +31,8 @@ pub enum Item {
     Req { h: usize, b: Option<usize> },
     /// a header line that never ends
     Endless,
+    /// a complete but malformed request head (invalid header name): 400 (oracle-only scenarios)
+    Bad,
     /// request with a chunked body of `b` data bytes sent in chunks of `cs`; head of `h` bytes
     Chunked { h: usize, b: usize, cs: usize },
 }
@@ -249,6 +251,7 @@ pub fn head_bytes(h: usize, b: Option<usize>) -> Vec<u8> {
     assert_eq!(s.len(), h);
     s.into_bytes()
 }
+pub const BAD_REQ: &[u8] = b"GET /bad HTTP/1.1\r\nbad header: x\r\n\r\n";
 pub const CHUNKED_BASE: usize = "POST / HTTP/1.1\r\ntransfer-encoding: chunked\r\n\r\n".len();
 pub fn chunked_head(h: usize) -> Vec<u8> {
     assert!(h >= CHUNKED_BASE && h - CHUNKED_BASE <= 2000);
@@ -280,7 +283,7 @@ pub fn item_lens(it: &Item) -> Option<(usize, usize)> {
     match it {
         Item::Req { h, b } => Some((*h, h + b.unwrap_or(0))),
         Item::Chunked { h, b, cs } => Some((*h, h + chunked_body_len(*b, *cs))),
-        Item::Endless => None,
+        Item::Endless | Item::Bad => None,
     }
 }
 pub fn stream_bytes(items: &[Item], need: usize) -> Vec<u8> {
@@ -296,6 +299,7 @@ pub fn stream_bytes(items: &[Item], need: usize) -> Vec<u8> {
                     out.extend(std::iter::repeat(b'p').take(*n));
                 }
             }
+            Item::Bad => out.extend_from_slice(BAD_REQ),
             Item::Chunked { h, b, cs } => {
                 out.extend_from_slice(&chunked_head(*h));
                 out.extend_from_slice(&chunked_body(*b, *cs));
@@ -750,7 +754,7 @@ pub fn normalize(c: &mut Case) {
         }
     }
     if !c.items.iter().any(|i| matches!(i, Item::Endless)) {
-        let total: usize = c.items.iter().map(|i| item_lens(i).map_or(0, |l| l.1)).sum();
+        let total: usize = c.items.iter().map(|i| if matches!(i, Item::Bad) { BAD_REQ.len() } else { item_lens(i).map_or(0, |l| l.1) }).sum();
         let mut left = total;
         for r in c.rounds.iter_mut() {
             r.add = r.add.min(left);
@@ -763,6 +767,7 @@ pub fn coq_case(c: &Case, fix21: bool) -> String {
     let items = coq_rle(&c.items, |it| match it {
         Item::Req { h, b } => format!("(IReq {h} {})", coq_opt_n(*b)),
         Item::Endless => "IEndless".into(),
+        Item::Bad => "IBad_not_modelled".into(),
         // lengths only: the decoder consumes the encoded body like a Length body of that size
         Item::Chunked { h, b, cs } => format!("(IReq {h} (Some {}))", chunked_body_len(*b, *cs)),
     });
